@@ -55,3 +55,24 @@ cl:
 done:
 	unreachable
 }
+
+define void @eh_unwind_labels(i8* %addr) personality i32 (...)* @pers {
+entry:
+	invoke void @v() to label %done unwind label %cs
+cs:
+	%s = catchswitch within none [label %h1, label %h2] unwind label %cl
+h1:
+	%p1 = catchpad within %s [i8* %addr]
+	catchret from %p1 to label %done
+h2:
+	%p2 = catchpad within %s []
+	catchret from %p2 to label %done
+cl:
+	%q = cleanuppad within none []
+	cleanupret from %q unwind label %cl2
+cl2:
+	%q2 = cleanuppad within none [i8* %addr]
+	cleanupret from %q2 unwind to caller
+done:
+	unreachable
+}
